@@ -440,6 +440,7 @@ func (db *DB) processIterations() {
 
 func (db *DB) doProcessIterations(iterations []*iteration) {
 	var maxDeadline time.Time
+	allHaveDeadline := true
 	includeMemStore := false
 	allOutFields := make(core.Fields, 0)
 	hasOutField := func(field core.Field) bool {
@@ -454,7 +455,11 @@ func (db *DB) doProcessIterations(iterations []*iteration) {
 	for _, it := range iterations {
 		includeMemStore = includeMemStore || it.includeMemStore
 		deadline, hasDeadline := it.ctx.Deadline()
-		if hasDeadline && deadline.After(maxDeadline) {
+		if !hasDeadline {
+			// at least one iteration has no deadline, so the shared scan can't have
+			// one either
+			allHaveDeadline = false
+		} else if deadline.After(maxDeadline) {
 			maxDeadline = deadline
 		}
 		// default outFields to table fields
@@ -510,7 +515,7 @@ func (db *DB) doProcessIterations(iterations []*iteration) {
 	}
 
 	newCtx := context.Background()
-	if !maxDeadline.IsZero() {
+	if allHaveDeadline && !maxDeadline.IsZero() {
 		var cancel context.CancelFunc
 		newCtx, cancel = context.WithDeadline(newCtx, maxDeadline)
 		defer cancel()
